@@ -223,9 +223,8 @@ def check_tombstone_value(cfg, w, rep, lf):
         for b, blk, t, g in prog.local_calls(f):
             if g.path in w.roles.index_inserts:
                 n += 1
-                optt = w.sym.of_operand(b, t.args[2])
-                sri = dict(optt[3]).get("sri") if optt[0] == "agg" else None
-                if sri is not None and sri[0] == "agg" and sri[2] == "None":
+                optt = options_value(w, b, t.args[2])
+                if is_tombstone_options(optt):
                     rep.ob(cfg, "tombstone", fn_key(lf), "`%s` appends a None-integrity record" % short(lf.path))
                 else:
                     rep.violation("tombstone:%s" % fn_key(lf), "`%s` appends a record that is not a tombstone" % short(lf.path),
